@@ -488,6 +488,10 @@ class Reach:
                     last_call = ('c', v)
                 else:
                     last_call = ('x', bb)
+                    # an enum-valued call whose variant the evaluator can decide under the assumption (an Option known to be Some)
+                    dv = self.evr.ev(('discr', c.term)) if c is not None else None
+                    if isinstance(dv, int) and not isinstance(dv, bool):
+                        last_call = ('variant', dv)
                 out[(bb, 'term')] = last_call
             if last is not None:
                 out[(bb, 'stmts')] = last
@@ -614,6 +618,71 @@ class Reach:
             return out
         return set(v[1]) if v[0] == 'phi' else {v}
 
+    def _reaching_def_sites(self, local, at_bb):
+        """(bb, stmt index | 'dest') of the definitions of `local` reaching the end of at_bb's statements on surviving paths."""
+        defs = {}
+        for (bb, si), (l, val, rv) in self.it.assign_vals.items():
+            if l == local:
+                defs.setdefault(bb, []).append(si)
+        preds = {}
+        for x in self.reachable:
+            for y in self.edges.get(x, []):
+                preds.setdefault(y, []).append(x)
+
+        def last_in(bb):
+            ds = defs.get(bb)
+            if not ds:
+                return None
+            if 'dest' in ds:
+                return (bb, 'dest')
+            return (bb, max(ds))
+        IN = {b: set() for b in self.reachable}
+        OUT = {b: set() for b in self.reachable}
+        changed, guard = True, 0
+        while changed and guard < 200:
+            guard += 1
+            changed = False
+            for b in self.it.rpo:
+                if b not in self.reachable:
+                    continue
+                inn = {('entry',)} if b == 0 else set()
+                for p_ in preds.get(b, []):
+                    inn |= OUT[p_]
+                l = last_in(b)
+                out = {l} if l is not None else inn
+                if inn != IN[b] or out != OUT[b]:
+                    IN[b], OUT[b] = inn, out
+                    changed = True
+        ds = [x for x in defs.get(at_bb, []) if x != 'dest']
+        return {(at_bb, max(ds))} if ds else IN.get(at_bb, set())
+
+    def _agg_operand_sites(self, local, at_bb, idx, depth):
+        """`local` holds an aggregate built from plain locals on every surviving path (possibly copied around): the
+        (operand local, block) pairs of its field `idx`; None when some reaching definition is anything else."""
+        if depth > 5:
+            return None
+        out = []
+        sites = self._reaching_def_sites(local, at_bb)
+        if not sites:
+            return None
+        for d2 in sites:
+            if d2 == ('entry',) or d2[1] == 'dest':
+                return None
+            b2, s2 = d2
+            rv2 = self.body.blocks[b2]['stmts'][s2].get('rv') or {}
+            o2 = rv2.get('ops') or []
+            if rv2.get('k') == 'agg' and rv2.get('agg') in ('tuple', 'adt') and idx < len(o2) \
+                    and o2[idx]['k'] in ('copy', 'move') and not o2[idx]['place']['proj']:
+                out.append((o2[idx]['place']['local'], b2))
+            elif rv2.get('k') == 'use' and rv2['op']['k'] in ('copy', 'move') and not rv2['op']['place']['proj']:
+                inner = self._agg_operand_sites(rv2['op']['place']['local'], b2, idx, depth + 1)
+                if inner is None:
+                    return None
+                out += inner
+            else:
+                return None
+        return out
+
     def reaching_terms(self, local, at_bb, depth=0):
         """Value terms of the definitions of `local` that reach the end of the statements of block at_bb on the paths
         that survive the assumption (path-sensitive provenance).  Copies/moves of plain locals are followed."""
@@ -677,6 +746,19 @@ class Reach:
                     all(e['k'] in ('field', 'downcast') and e.get('owner') != 'closure' for e in rv['op']['place']['proj']):
                 # a projection of a local (tuple / struct destructuring): project every reaching value of the base
                 from .interp import proj as _proj
+                # the base was built by an aggregate of plain locals (`(prev, next)` then `.0`): follow the operand itself, so
+                # that the provenance stays path-sensitive through the tuple
+                pj = [e for e in rv['op']['place']['proj'] if e['k'] != 'downcast']
+                followed = False
+                if len(pj) == 1 and pj[0]['k'] == 'field' and 'idx' in pj[0]:
+                    ops = self._agg_operand_sites(rv['op']['place']['local'], bb, pj[0]['idx'], 0)
+                    if True:
+                        if ops:
+                            for l2, b2 in ops:
+                                terms |= self.reaching_terms(l2, b2, depth + 1)
+                            followed = True
+                if followed:
+                    continue
                 base = self.reaching_terms(rv['op']['place']['local'], bb, depth + 1)
                 for bt in base:
                     cur = bt
